@@ -99,6 +99,10 @@ class Oracle:
                 return idx, "unexpected error class"
             if kind == "P":
                 ent = dict(id=int(t[5]), key=int(t[1]), prio=int(t[2]), susp=t[3] == "1", repl=t[4] == "1")
+                if ent["id"] in minted:
+                    # the same entry object pushed once more (same id, same fields)
+                    st["push"]["same object again"] = st["push"].get("same object again", 0) + 1
+                    ent = minted[ent["id"]]
                 minted[ent["id"]] = ent
                 if ent["key"] in m and not ent["repl"]:
                     st["push"]["duplicate rejected"] += 1
@@ -538,7 +542,8 @@ def replay(ctx, path):
     inp = os.path.join(CASEDIR, "c11-replay-in.txt")
     outp = os.path.join(CASEDIR, "c11-replay-out.txt")
     with open(inp, "w") as f:
-        f.write("Q replay " + " ; ".join(c["calls"]) + "\n")
+        # a sequence id ending in x: entry objects are shared with a second queue after every call
+        f.write("Q replay%s " % ("x" if str(c.get("sequence", "")).endswith("x") else "") + " ; ".join(c["calls"]) + "\n")
     rc, o = vlib.run([binp, "replay", inp, outp], timeout=300)
     if rc != 0:
         raise RuntimeError("queueh replay failed: " + o[-2000:])
